@@ -198,6 +198,17 @@ def own_relations(case, ints, floats):
             for q in range(3):
                 if not feq(floats[3 * (i * nm + j) + q], floats[3 * (j * nm + i) + q]):
                     bad.append(("pairs", "%s(%d,%d) != (%d,%d)" % (["sigma", "sigma_inv", "indicator"][q], i, j, j, i)))
+    # {non-excluded vertices} = the vertices referenced by at least one mesh that is not isolated
+    active = set(); passive = set()
+    for M in D["meshes"]:
+        (passive if M["iso"] else active).update(M["verts"])
+    for q, M in enumerate(D["meshes"]):
+        if not M["iso"]:
+            ex = [v for v in M["verts"] if D["vidx"][v] == -1]
+            if ex:
+                bad.append(("indices", "%d of the %d vertices of the active mesh %d are excluded (index -1)" % (len(ex), len(M["verts"]), q))); break
+    # (OLD_ORDERING numbers the vertex references of every mesh, isolated or not: documented in the model, not judged here)
+    if not case["old"] and any(D["vidx"][v] != -1 for v in passive - active): bad.append(("indices", "a vertex referenced by isolated meshes only carries an unknown"))
     seen = set()
     for i, j, o in D["pairs"]:
         k = (min(i, j), max(i, j))
@@ -214,6 +225,42 @@ def expected_nested(m):
     if k == "split": return False, "split hemispheres"
     if k == "bowl": return True, "a bowl-shaped shell (and its enclosing sphere)"
     return None, "?"
+
+def laminar_forest(case):
+    """parent forest of the interfaces when the description has the shape of unique_domain_general (one domain per
+    interface: inside it and outside its children; the exterior: outside the roots); None otherwise"""
+    doms = case["aux"]["doms"]; ni = len(case["aux"]["ifs"])
+    parent = {}; owner = set(); outer = 0
+    for d in doms:
+        ins = [i for s_, i in d if s_]; outs = [i for s_, i in d if not s_]
+        if len(ins) == 1 and ins[0] not in owner:
+            owner.add(ins[0])
+            for c_ in outs:
+                if c_ in parent: return None
+                parent[c_] = ins[0]
+        elif len(ins) == 0:
+            outer += 1
+            for c_ in outs:
+                if c_ in parent: return None
+                parent[c_] = None
+        else: return None
+    if outer != 1 or owner != set(range(ni)) or set(parent) != set(range(ni)): return None
+    return parent
+
+def laminar_hypotheses_hold(case):
+    """(number of probes checked, first violated hypothesis or None): inside a surface => inside its parent; two surfaces
+    with the same parent have disjoint interiors - evaluated with the winding-number oracle"""
+    parent = laminar_forest(case)
+    if parent is None or not case["probes"]: return 0, None
+    m = case["model"]; ifs = case["aux"]["ifs"]
+    for p in case["probes"]:
+        ins = [gd.inside_interface(m, ifc, p) for ifc in ifs]
+        for i, pi in parent.items():
+            if ins[i] and pi is not None and not ins[pi]: return 0, "probe %r inside interface %d but not inside its parent %d" % (p, i, pi)
+        for i in parent:
+            for j in parent:
+                if i < j and parent[i] == parent[j] and ins[i] and ins[j]: return 0, "probe %r inside the siblings %d and %d" % (p, i, j)
+    return len(case["probes"]), None
 
 def expected_domains(case):
     """geometric truth for the probes: the unique domain of the description whose region contains the point
@@ -336,6 +383,22 @@ def main(replay=None):
                 wm = models.nested([0.6, 1.0], [1.0, 0.33], 0); wm["info"]["topology"] = "nested"
                 return gd.redescribe(gd.redescribe(wm, cr, "mesh_flip"), cr, "local_flips")
             return None
+        # an isolated mesh (the cut between two non-conductive half balls) sharing its rim with several active meshes, the
+        # meshes declared in every order: the rescue of shared vertices must not depend on which active mesh comes first
+        import itertools
+        for nshell, lvl in ((1, 1), (2, 1)):
+            wm = models.split_hemispheres(1.0, [1.2, 1.4][:nshell], (0.0, 0.0), [0.33, 1.0][:nshell], lvl); wm["info"]["topology"] = "split-zero"
+            orders = list(itertools.permutations(range(len(wm["meshes"]))))
+            if len(orders) > 24: orders = rng.sample(orders, 16 if quick else 60)
+            for od in orders:
+                v = gd.redescribe(wm, rng, "identity"); v["meshes"] = [wm["meshes"][k] for k in od]
+                add(v, "1.1", False, "orders:split-zero", nprobes=0)
+        # a lens: NORTH non-conductive, SOUTH conductive, first outer layer non-conductive -> the north cap is isolated and
+        # shares its rim with the (active) cut and south cap
+        wm = models.split_hemispheres(1.0, [1.2, 1.4], (0.0, 1.0), [0.0, 0.33], 1); wm["info"]["topology"] = "split-lens"
+        for od in itertools.permutations(range(5)) if not quick else rng.sample(list(itertools.permutations(range(5))), 16):
+            v = gd.redescribe(wm, rng, "identity"); v["meshes"] = [wm["meshes"][k] for k in od]
+            add(v, "1.1", False, "orders:split-lens", nprobes=0)
         cp = os.path.join(core.VERIF, "corpus", "C11.txt")
         if os.path.exists(cp):
             for line in open(cp):
@@ -420,7 +483,7 @@ def main(replay=None):
         else:
             ck.violation("data/HeadNNb1 does not load", "the suite's HeadNNb1 geometry no longer loads: %s" % o_[0][:100], dict(kind="data", path="data/HeadNNb1/HeadNNb1.geom"))
     rc_, io, err = core.run_harness(hb, [c["hline"] for c in cases], ck.workdir, timeout=900)
-    nontriv = set(); mism = 0; nprobe = 0; errs = 0
+    nontriv = set(); mism = 0; nprobe = 0; errs = 0; nlam = 0
     for c, m_, i_ in zip(cases, mo, io):
         mi, mf = core.fparse(m_); ii, if_ = core.fparse(i_)
         rep = dict(kind="correspondence", cases=[dict(orig=c["orig"], tokens=c["tokens"], style=c["style"], old=c["old"], has_cond=c["has_cond"], tag=c["tag"], probes=c["probes"],
@@ -451,15 +514,20 @@ def main(replay=None):
         if mi[0] == 0: nontriv.add(c["mline"])
         bad, np_ = property_failures(c, ii, if_) if mi[0] == 0 else ([], 0)
         nprobe += np_
+        if mi[0] == 0:
+            nl, why = laminar_hypotheses_hold(c)
+            nlam += nl
+            if why: ck.violation("laminar hypotheses (%s)" % c["tag"].split(":")[-1], "the hypotheses of unique_domain_general do not hold for a generated model: %s" % why, rep, found_input=False)
         for sig, what in bad: ck.violation(sig, "loaded geometry violates the property: %s" % what, rep)
     ck.cov.update(evaluations=len(cases), distinct_nontrivial=len(nontriv),
                   rule="generated head descriptions (nested 1-4 layers, zero-conductivity layers, split hemispheres with shared vertices, sibling and non-conductive inclusions) x re-descriptions x concrete syntaxes (1.1 named/commented/interface-shorthand/unnamed, legacy 1.0), ~15% damaged descriptions; non-trivial = loads successfully; distinct = distinct abstract descriptions",
                   samples=[c["mline"][:300] for c in cases[:2]], op_distribution=dist, error_outcomes=errs,
                   correspondence_mismatches=mism, traces_validated_against_impl=len(cases) + len(lexcases), probe_points=nprobe,
-                  lexer_cases=dict(same_as_token_level=lex_same, textual_variants=len(lexcases), load_status_by_variant={k: {str(x): v.count(x) for x in set(v)} for k, v in lexstat.items()}))
+                  probes_satisfying_laminar_hypotheses=nlam, lexer_cases=dict(same_as_token_level=lex_same, textual_variants=len(lexcases), load_status_by_variant={k: {str(x): v.count(x) for x in set(v)} for k, v in lexstat.items()}))
     ck.cov["trusted_base"] += ["hand-written Gallina model coq/Geom/GeomModel.v tied by exact differential runs (harness/h_c11.cpp vs extract/omm)",
                                "lib/geomdesc.py: name resolution, point identities, solid-angle sign and winding-number oracles (Python floats, margin from the surfaces)",
                                "extraction: ExtrOcamlBasic only"]
     ck.assumptions += ["Gauss' law (Section hypothesis): the solid angle of a closed coherently oriented surface at an interior point is -4pi when the normals point outward, 0 outside; supplied to the model as the per-interface sign and per-probe insideness",
                        "probe points keep a margin from every surface"]
+    ck.drop_proof_violation_if(True)
     return ck.finish()
